@@ -344,7 +344,9 @@ theorem arrayCompute_ident {env : Env} {op : Op} {q1 q2 q : Quantity} (r1 r2 : R
       cases mapE (fun p : Rat × Rat => vop op p.1 p.2) ps <;> rfl
   · have : (fun p : Rat × Rat => applyOp op Tr.ident Tr.ident p.1 p.2) = (fun p => vop op p.1 p.2) := rfl
     rw [this]
-    cases mapE (fun p : Rat × Rat => vop op p.1 p.2) (genPairs r1 r2) <;> rfl
+    cases mapE (fun p : Rat × Rat => vop op p.1 p.2) (genPairs r1 r2) with
+    | error e => rfl
+    | ok vs => cases (genPairs r1 r2).isEmpty <;> rfl
 
 theorem opFunc_empty_right {env : Env} (hl : env.Lawful) (op : Op) {q : Quantity} (hq : Normal env q) :
     opFunc env op q emptyQ = .ok (q, Tr.ident, Tr.ident) := by
@@ -408,7 +410,7 @@ theorem array_op_array (env : Env) (d : Bool) (op : Op) (q1 q2 : Quantity) (k1 k
     binop env d op (.array q1 k1 xs) (.array q2 k2 ys) =
       if xs.length ≠ ys.length then .error .value
       else arrayCompute env op q1 q2 (.seq k1 xs) (.seq k2 ys) := by
-  simp [binop, arrayDoOp, rawOf, valuesOf, quantityOf, rawValues]
+  simp [binop, arrayDoOp, rawOf, valuesOf, quantityOf, rawLen]
 
 theorem arrayCompute_seq (env : Env) (op : Op) (q1 q2 : Quantity) (k1 k2 : Kind) (xs ys : List Rat)
     (hlen : xs.length = ys.length) :
@@ -419,9 +421,14 @@ theorem arrayCompute_seq (env : Env) (op : Op) (q1 q2 : Quantity) (k1 k2 : Kind)
         if vectorised k1 k2 then
           (mapE (fun p => applyOp op t1 t2 p.1 p.2) (xs.zip ys)).map (Out.array q .nd)
         else
-          match applyOp op t1 t2 1 1 with
+          match mapE (fun p => applyOp op t1 t2 p.1 p.2) (xs.zip ys) with
           | .error e => .error e
-          | .ok _ => (mapE (fun p => applyOp op t1 t2 p.1 p.2) (xs.zip ys)).map (Out.array q (resultKind k1 k2)) := by
+          | .ok zs =>
+            if (xs.zip ys).isEmpty then
+              match applyOp op t1 t2 1 1 with
+              | .error e => .error e
+              | .ok _ => .ok (.array q (resultKind k1 k2) zs)
+            else .ok (.array q (resultKind k1 k2) zs) := by
   unfold arrayCompute
   cases opFunc env op q1 q2 with
   | error e => rfl
@@ -434,11 +441,7 @@ theorem arrayCompute_seq (env : Env) (op : Op) (q1 q2 : Quantity) (k1 k2 : Kind)
       have hk : (if genIsTuple (.seq k1 xs) (.seq k2 ys) = true then Kind.tuple else Kind.list) = resultKind k1 k2 := by
         cases k1 <;> cases k2 <;> simp_all [vectorised, genIsTuple, Raw.iterates, Raw.isTuple, resultKind]
       simp only [hn, hk, genPairs, Bool.false_eq_true, ↓reduceIte]
-      cases applyOp op t1 t2 1 1 with
-      | error e => rfl
-      | ok z =>
-        simp only
-        cases mapE (fun p : Rat × Rat => applyOp op t1 t2 p.1 p.2) (xs.zip ys) <;> rfl
+      rfl
     · have hn : genIsNumpy (.seq k1 xs) (.seq k2 ys) = true := by
         cases k1 <;> cases k2 <;> simp_all [vectorised, genIsNumpy, Raw.isNumpy]
       have hb : broadcastPairs (.seq k1 xs) (.seq k2 ys) = .ok (xs.zip ys) := by simp [broadcastPairs, hlen]
@@ -453,7 +456,7 @@ theorem array_op_array_ok_iff (env : Env) (d : Bool) (op : Op) (q1 q2 : Quantity
     (xs ys : List Rat) (o : Out) :
     binop env d op (.array q1 k1 xs) (.array q2 k2 ys) = .ok o ↔
       xs.length = ys.length ∧ ∃ q t1 t2 zs, opFunc env op q1 q2 = .ok (q, t1, t2) ∧
-        (vectorised k1 k2 = false → ∃ z, applyOp op t1 t2 1 1 = .ok z) ∧
+        (vectorised k1 k2 = false → xs = [] → ∃ z, applyOp op t1 t2 1 1 = .ok z) ∧
         mapE (fun p => applyOp op t1 t2 p.1 p.2) (xs.zip ys) = .ok zs ∧
         o = .array q (resultKind k1 k2) zs := by
   rw [array_op_array]
@@ -470,15 +473,21 @@ theorem array_op_array_ok_iff (env : Env) (d : Bool) (op : Op) (q1 q2 : Quantity
       simp only [hf] at h
       cases hv : vectorised k1 k2
       · simp only [hv, Bool.false_eq_true, ↓reduceIte] at h
-        cases hp : applyOp op t1 t2 1 1 with
-        | error e => simp [hp] at h
-        | ok z =>
-          simp only [hp] at h
-          cases hm : mapE (fun p : Rat × Rat => applyOp op t1 t2 p.1 p.2) (xs.zip ys) with
-          | error e => simp [hm, Except.map] at h
-          | ok zs =>
-            simp only [hm, Except.map, Except.ok.injEq] at h
-            exact ⟨q, t1, t2, zs, rfl, fun _ => ⟨z, hp⟩, hm, h.symm⟩
+        cases hm : mapE (fun p : Rat × Rat => applyOp op t1 t2 p.1 p.2) (xs.zip ys) with
+        | error e => simp [hm] at h
+        | ok zs =>
+          simp only [hm] at h
+          by_cases he : (xs.zip ys).isEmpty = true
+          · simp only [he, ↓reduceIte] at h
+            cases hp : applyOp op t1 t2 1 1 with
+            | error e => simp [hp] at h
+            | ok z =>
+              simp only [hp, Except.ok.injEq] at h
+              exact ⟨q, t1, t2, zs, rfl, fun _ _ => ⟨z, hp⟩, hm, h.symm⟩
+          · simp only [he, Bool.false_eq_true, ↓reduceIte, Except.ok.injEq] at h
+            refine ⟨q, t1, t2, zs, rfl, fun _ hx => ?_, hm, h.symm⟩
+            subst hx
+            simp at he
       · simp only [hv, ↓reduceIte] at h
         cases hm : mapE (fun p : Rat × Rat => applyOp op t1 t2 p.1 p.2) (xs.zip ys) with
         | error e => simp [hm, Except.map] at h
@@ -488,8 +497,18 @@ theorem array_op_array_ok_iff (env : Env) (d : Bool) (op : Op) (q1 q2 : Quantity
   · rintro ⟨q, t1, t2, zs, hf, hp, hm, rfl⟩
     simp only [hf]
     cases hv : vectorised k1 k2
-    · obtain ⟨z, hz⟩ := hp hv
-      simp [hz, hm, Except.map]
+    · simp only [Bool.false_eq_true, ↓reduceIte, hm]
+      by_cases he : (xs.zip ys).isEmpty = true
+      · have hx : xs = [] := by
+          cases xs with
+          | nil => rfl
+          | cons a as =>
+            cases ys with
+            | nil => simp at hlen
+            | cons b bs => simp at he
+        obtain ⟨z, hz⟩ := hp hv hx
+        simp [he, hz]
+      · simp [he]
     · simp [hm, Except.map, resultKind_vectorised hv]
 
 theorem scalar_op_scalar_ok_iff (env : Env) (d : Bool) (op : Op) (q1 q2 : Quantity) (x y : Rat) (q : Quantity) (z : Rat) :
